@@ -353,7 +353,7 @@ fn t_classes() -> Vec<(&'static str, Duration)> {
 fn c04_case(ctx: &mut Ctx, rng: &mut Rng, i: u64) {
     let seed = rng.next() >> 1;
     let tcs = t_classes();
-    let kinds = ["silent", "trickle", "burst-then-silent", "flood", "closes-stdin-pipe-full", "closes-stdin-pipe-not-full", "exits-mid-exchange", "no-limit-control", "slow-reader-of-large-input", "nibbles-input-then-pauses", "only-stdin-piped"];
+    let kinds = ["silent", "trickle", "burst-then-silent", "flood", "closes-stdin-pipe-full", "closes-stdin-pipe-not-full", "exits-mid-exchange", "no-limit-control", "slow-reader-of-large-input", "nibbles-input-then-pauses", "only-stdin-piped", "whole-chunks-on-the-only-stream-then-silent"];
     let kind = kinds[(i % kinds.len() as u64) as usize];
     let (tname, t) = tcs[rng.below(tcs.len() as u64) as usize].clone();
     let cap: i64 = 65536;
@@ -362,7 +362,18 @@ fn c04_case(ctx: &mut Ctx, rng: &mut Rng, i: u64) {
     let mut kill_after = false;
     let mut first_time: Option<Duration> = Some(t);
     let mut only_stdin = false;
+    let mut only_one_output: Option<u64> = None;
     let script = match kind {
+        "whole-chunks-on-the-only-stream-then-silent" => {
+            // a single captured stream, nothing to send; the child writes a burst that is a whole number of 4096-byte
+            // pieces (what one read takes), in one go, and then keeps the stream open and says nothing more: that the last
+            // read came back full says nothing about more being there
+            let stream = rng.range(1, 2);
+            only_one_output = Some(stream);
+            kill_after = true;
+            let n = rng.range(1, 16) * 4096;
+            format!("w{}:{}:{},s4000,x0", stream, n, n)
+        }
         "silent" => {
             kill_after = true;
             "s4000,x0".to_string()
@@ -449,8 +460,8 @@ fn c04_case(ctx: &mut Ctx, rng: &mut Rng, i: u64) {
         seed,
         script,
         input,
-        out_piped: !only_stdin,
-        err_piped: !only_stdin,
+        out_piped: !only_stdin && only_one_output != Some(2),
+        err_piped: !only_stdin && only_one_output != Some(1),
         err_merge: false,
         cap,
         entry: if rng.chance(800) { Entry::Start } else { Entry::ExecCommunicate },
